@@ -34,7 +34,7 @@ RULE = ("one run = one seeded history on a real Headers object over a real heade
         "beyond the tip; re-sent stored headers; checkpoint chunks served honest/altered/truncated/extended "
         "through ensure_chunk_at/get_raw_header; close + fault (cut at a byte offset incl. a family enumerating "
         "every offset of the last three headers, whole-header overwrite of tip/non-tip headers with zero/random "
-        "bytes, bit flips in non-tip headers) + reopen; families anyheight (no checkpoints, 1..1100 headers, the same damage plus a garbage tail after an aligned cut at ANY height incl. below 999 and genesis) and shortfork (the chain becomes shorter by a fork at a lower height, close, reopen, with the old tail below / across / above height 999; then extension or another shorter fork and a second reopen). Non-trivial = at least one invalid "
+        "bytes, bit flips in non-tip headers) + reopen; families anyheight (no checkpoints, 1..1100 headers, the same damage plus a garbage tail after an aligned cut at ANY height incl. below 999 and genesis) and shortfork (the chain becomes shorter by a fork at a lower height, close, reopen, with the old tail below / across / above height 999; then extension or another shorter fork and a second reopen) and firstabove (1 or 2 checkpoints, tip on or next to the first height above the check-pointed chunks, that header overwritten / flipped / start of a garbage tail, lower chunk present or still a placeholder), belowcp (batches that connect INSIDE the check-pointed range: rule-valid forks also from genesis, re-sent real headers, real headers into a placeholder, a header mined against the all-zero placeholder; chunk downloaded or placeholder, chunk_getter set or not; then fetches, headers above, restart), tipdamage (partial damage of the tip: bit flip in any field, last 1..111 bytes zeroed, one field replaced; 0/1/2 checkpoints) and band (pre-mined header whose PoW hash lies between decode(bits) and the un-rounded retarget value, as extension or fork, alone or with a valid child). Non-trivial = at least one invalid "
         "batch was offered or one fault fired or one fork connected; distinct = distinct event-trace digest.")
 COMPONENTS = {
     'real': ['lbry.wallet.header.Headers (connect, validate_chunk, validate_header, get_next_block_target, '
@@ -50,23 +50,34 @@ ASSUMPTIONS = [
     'code is the same, only the class constant differs',
     'ripemd160/sha256/sha512 primitives come from hashlib (OpenSSL) for both the product and the reference; '
     'the composition (PoW hash, block hash, compact bits, retarget) is re-implemented independently',
-    'a header meets its target iff pow_hash <= decode(bits) (lbrycrd CheckProofOfWork); the product compares '
-    'against the un-rounded retarget value, which accepts a band of relative width <= 2^-15 above decode(bits) '
-    'that cannot be hit by sampling: neither mined headers nor the insufficient-work headers fall in that band',
+    'a header meets its target iff pow_hash <= decode(bits) (lbrycrd CheckProofOfWork); the window between '
+    'decode(bits) and the un-rounded retarget value (2^-16 of the valid hashes, 2^24 hashes per header) cannot be hit '
+    'by sampling, so three such headers were mined off-line on fixed heights of the base chain (lbrychain.'
+    'BAND_HEADERS_HEX, verified against the chain when loaded) and are offered by the family band (bad=pow:band); '
+    'headers mined on the fly stay out of the window on both sides',
     'PoW comparison `>` vs `>=` differs only for pow_hash == target exactly, which needs a hash preimage: not testable',
     'faults are applied to the file between close() and the next open() (Headers only writes the file in close())',
     'validity is asserted up to the end of the most recently connected batch',
     'restart clauses: "what was stored" is the in-memory chain at close(); bytes of an older, longer chain that '
     'close() leaves in the file behind it are NOT excused (loaded chain longer than the stored one = not a prefix; '
     'a valid tip dropped because it does not link to that tail = dropped too much); site stale_tail=True',
-    'damage model: tip = whole-header overwrite only (a partial change of the tip that spares its parent-hash field '
-    'is invisible to any link check); no damage inside check-pointed chunks and no fork below a checkpoint',
+    'damage model: any damage to the tip counts (whole-header overwrite, one flipped bit in any field, zeroed tail '
+    'of the file, one field replaced: family tipdamage, site tip_partial_damage) except a change after which the '
+    'header still satisfies every rule (no validator can tell) and, with checkpoints, while a header right below the '
+    'tip is the all-zero placeholder of a chunk not downloaded yet; no damage inside check-pointed chunks',
+    'below max(checkpoints)+1000 headers are only accepted as whole chunks that hash to their checkpoint: a batch that '
+    'connects there (fork valid by the chain rules, re-sent real headers, real headers into a placeholder, header '
+    'mined against a placeholder) must store nothing and cut nothing (family belowcp, kind C07.checkpoint '
+    'what=connected_inside_checkpointed_range); raising InvalidHeader/IndexError for such a batch is accepted. The '
+    'older families still mine their own forks above the checkpoints only; file cuts inside the check-pointed range '
+    'are not generated',
     'damage positions: a store WITHOUT checkpoints has no check-pointed chunk, so every height qualifies (families '
     'anyheight/shortfork: any height incl. genesis, files shorter than 1000 headers; site below_999_no_checkpoints); '
     'the older families keep their positions above 999 so that their scenarios stay what they were',
-    'with checkpoints damage is generated strictly above max(checkpoints)+1000; that height itself (first header above '
-    'the check-pointed chunks) is left out: repair() does not link it to the last check-pointed header, so a whole-'
-    'header overwrite of a tip at exactly that height is kept - reported observation, not asserted',
+    'with checkpoints damage is generated at and above max(checkpoints)+1000: the first height above the check-pointed '
+    'chunks is above the last check-pointed chunk (family firstabove, site first_above_checkpoint=True; the older '
+    'families keep their positions strictly above it); only while the header right below it is an all-zero placeholder '
+    'of a not yet downloaded chunk nothing can link it and it is not damaged',
     'the chain is judged modulo all-zero placeholders of check-pointed chunks that were not downloaded yet; while such a '
     'placeholder exists an unaligned cut makes open() run repair() from height 0, which meets the placeholder instead of '
     'the genesis header and truncated the whole file: genuine defect, repaired in /repo (known_findings.json '
@@ -82,7 +93,10 @@ EXPECTED_PROBES = [
     'mined_neg_delta', 'mined_capped', 'mined_trunc_vs_floor', 'tip_on_repair_batch_edge', 'base_prefix_short',
     'chunk_stored_below_top', 'reject_after_midfile_write', 'extend_after_midfile_write', 'empty_batch',
     'sparse_start', 'closed_shorter_than_file', 'closed_shorter_below_999', 'closed_shorter_above_999',
-    'store_shorter_than_1000', 'damage_below_999',
+    'store_shorter_than_1000', 'damage_below_999', 'damage_first_above_checkpoint',
+    'damaged_tip_is_first_above_checkpoint', 'connect_inside_checkpointed_downloaded',
+    'connect_inside_checkpointed_placeholder', 'deep_fork', 'deep_genesis_fork', 'deep_resend', 'deep_feed0',
+    'deep_placeholder_bits', 'band_as_extension', 'band_as_fork',
 ] + ['cut_enum_slice_%02d' % i for i in range(21)]   # every byte offset of the last three headers (336 = 21 x 16)
 
 HS = lc.HEADER_SIZE
@@ -325,8 +339,192 @@ def _gen_restart(r, big):
     return sc
 
 
+FIRST_ABOVE_FRACTION = 0.06         # share of runs taken by the `firstabove` family (own rng stream)
+
+
+def _gen_first_above(r, big):
+    """Stores WITH checkpoints whose damage sits on the first height above the check-pointed chunks (header 1000
+    with {0: ...}, 2000 with two): it is above the last check-pointed chunk, so the restart clauses cover it.
+    The tip is on or next to that height; a still missing (all-zero placeholder) chunk below is tolerated."""
+    cp = r.choice([1, 1, 2])
+    top = 1000 * cp
+    sc = {'family': 'firstabove', 'cp': cp, 'init': 'file', 'base_len': top + r.choice([1, 1, 1, 2, 3, 37, 100]),
+          'full_walk': r.random() < 0.1, 'server_delay': 0.0, 'ops': []}
+    v = r.random()
+    if v < 0.15:
+        sc['init'] = 'sparse'             # the chunk right below the damaged height is present, a lower one
+        if cp == 1:                       # (cp 2) or the only one (cp 1) is still a placeholder
+            sc['base_len'] = r.choice([1001, 1001, 1002, 1050])
+    ops = sc['ops']
+    if r.random() < 0.25:
+        ops.append(_batch(r, big, nmax=2))
+    first = ['low', -1]                   # resolves to max(checkpoints) + 1000
+    k = r.choices(['ow_first', 'flip_first', 'ow_tip', 'garbage_first', 'clean'], [50, 15, 15, 12, 8])[0]
+    if k == 'ow_first':
+        faults = [{'kind': 'overwrite', 'any': True, 'pos': first, 'fill': r.choice(['zero', 'random']),
+                   'seed': r.getrandbits(32)}]
+    elif k == 'flip_first':
+        faults = [{'kind': 'bitflip', 'any': True, 'pos': first, 'bit': r.randrange(HS * 8)}]
+    elif k == 'ow_tip':
+        faults = [{'kind': 'overwrite', 'any': True, 'pos': ['back', 0], 'fill': r.choice(['zero', 'random']),
+                   'seed': r.getrandbits(32)}]
+    elif k == 'garbage_first':
+        faults = [{'kind': 'garbage_tail', 'pos': first, 'm': r.choice([1, 1, 2, 5]),
+                   'fill': r.choice(['zero', 'random']), 'seed': r.getrandbits(32)}]
+    else:
+        faults = []
+    ops.append({'op': 'reopen', 'faults': faults})
+    if r.random() < 0.5:
+        ops.append({'op': 'feed', 'n': r.choice([1, 2, 5]), 'split': []})
+        if r.random() < 0.5:
+            ops.append(_batch(r, big, nmax=2))
+        ops.append({'op': 'reopen', 'faults': [] if r.random() < 0.6 else [
+            {'kind': 'overwrite', 'any': True, 'pos': ['back', 0], 'fill': 'random', 'seed': r.getrandbits(32)}]})
+    return sc
+
+
+BELOW_CP_FRACTION = 0.07            # share of runs taken by the `belowcp` family (own rng stream)
+TIP_DAMAGE_FRACTION = 0.07          # share of runs taken by the `tipdamage` family (own rng stream)
+
+
+def _deep_op(r, big, top, shape=None):
+    """One connect that starts INSIDE the check-pointed range (below max(checkpoints)+1000)."""
+    shape = shape or r.choice(['fork', 'fork', 'genesis_fork', 'resend', 'resend', 'placeholder_bits', 'feed0'])
+    h = r.choice([1, 2, 5, 6, 500, 999, 1000, 1001, 1002, 1500, 1999, r.randrange(1, top), r.randrange(1, top)])
+    h = 1 + (h - 1) % (top - 1)
+    n = r.randrange(1, 5)
+    op = {'op': 'deep', 'shape': shape, 'start': h, 'n': n, 'deltas': _deltas(r, n), 'seed': r.getrandbits(48),
+          'split': _split(r, n) if r.random() < 0.3 else []}
+    if shape == 'resend' and r.random() < 0.3:
+        op['n'] = r.choice([1, 3, 10, 1000, 1005])       # also whole chunks and batches running over the top
+    if shape == 'placeholder_bits':
+        op['start'] = 1000 * r.randrange(1, top // 1000 + 1) + 1 if top > 1000 else 1001
+    return op
+
+
+def _gen_below_cp(r, big):
+    """Batches that connect inside the check-pointed range: forks valid by the chain rules (also from genesis),
+    re-sent real headers with their real height, real headers into a placeholder, a header mined against the
+    all-zero placeholder as its grand-parent - with the chunk downloaded or still a placeholder, chunk_getter
+    set or not yet set; then what a wallet does next (on-demand fetch of another chunk, headers above, restart)."""
+    cp = r.choice([1, 2, 2])
+    top = 1000 * cp
+    sc = {'family': 'belowcp', 'cp': cp, 'init': 'file', 'base_len': top + r.choice([0, 1, 10, 100]),
+          'getter': r.random() < 0.6, 'full_walk': r.random() < 0.1, 'server_delay': r.choice([0.0, 0.0, 0.01]),
+          'ops': []}
+    ops = sc['ops']
+    v = r.random()
+    if v < 0.35 and cp == 2:
+        sc['init'] = 'sparse'
+        sc['base_len'] = r.choice([2000, 2001, 2010, 2100])
+    elif v < 0.5:
+        sc['init'] = 'none'
+        sc['base_len'] = 0
+        sc['getter'] = True
+        if r.random() < 0.7:
+            ops.append({'op': 'feed', 'n': r.choice([1, 10, 100]), 'split': []})
+    if r.random() < 0.2:
+        ops.append(_batch(r, big, nmax=2))
+    shape = None
+    if sc['init'] == 'sparse' and not sc['getter'] and r.random() < 0.5:
+        shape = 'placeholder_bits'
+    ops.append(_deep_op(r, big, top, shape))
+    for _ in range(r.randrange(0, 4)):
+        k = r.choice(['fetch', 'fetch', 'feed', 'ext', 'deep', 'reopen', 'reject'])
+        if k == 'fetch':
+            ops.append(_fetch(r, ['abs', r.choice([0, 5, 999, 1000, 1500, 1999, r.randrange(top)]) % top], 'honest'))
+        elif k == 'feed':
+            ops.append({'op': 'feed', 'n': r.choice([1, 3, 36]), 'split': []})
+        elif k == 'ext':
+            ops.append(_batch(r, big, nmax=3))
+        elif k == 'deep':
+            ops.append(_deep_op(r, big, top))
+        elif k == 'reopen':
+            ops.append({'op': 'reopen', 'faults': []})
+        else:
+            ops.append(_nothing_stored(r, big))
+    return sc
+
+
+def _tip_fault(r):
+    how = r.choice(['flip', 'flip', 'flip', 'zero_tail', 'zero_tail', 'field'])
+    ft = {'kind': 'tip_damage', 'how': how}
+    if how == 'flip':
+        f = r.choice(['version', 'merkle', 'claim', 'time', 'bits', 'nonce', 'nonce', 'prev'])
+        ft['bit'] = FIELDS[f][0] * 8 + r.randrange(FIELDS[f][1])
+    elif how == 'zero_tail':
+        ft['bytes'] = r.choice([1, 2, 4, 5, 8, 12, 13, 40, 44, 76, 77, 111])
+    else:
+        ft['field'] = r.choice(['bits_max', 'bits_parent', 'nonce_plus', 'time_plus', 'version_flip', 'merkle_byte'])
+        ft['seed'] = r.getrandbits(32)
+    return ft
+
+
+def _gen_tip_damage(r, big):
+    """Restart after damage to the TIP that is not a whole-header overwrite: one flipped bit in any field, the last
+    1..111 bytes of the file zeroed (unflushed tail), one field replaced - stores with 0, 1 or 2 checkpoints."""
+    cp = r.choice([0, 0, 1, 2])
+    top = 1000 * cp
+    sc = {'family': 'tipdamage', 'cp': cp, 'init': 'file', 'full_walk': False, 'server_delay': 0.0, 'ops': [],
+          'base_len': (r.choice([2, 3, 5, 36, 37, 200, 998, 999, 1000, 1001, 1036, 1100]) if cp == 0 else
+                       top + r.choice([1, 2, 3, 10, 37, 100]))}
+    ops = sc['ops']
+    for _ in range(r.randrange(1, 3)):
+        if r.random() < 0.4:
+            ops.append(_batch(r, big, nmax=3))
+        faults = [_tip_fault(r)]
+        if r.random() < 0.15:
+            faults.append({'kind': 'bitflip', 'any': True, 'pos': ['back', r.choice([1, 2, 3])], 'bit': r.randrange(HS * 8)})
+        ops.append({'op': 'reopen', 'faults': faults})
+        if r.random() < 0.5:
+            ops.append({'op': 'feed', 'n': r.choice([1, 2, 5]), 'split': []})
+    if r.random() < 0.4:
+        ops.append(_batch(r, big, nmax=2))
+        ops.append({'op': 'reopen', 'faults': []})
+    return sc
+
+
+BAND_FRACTION = 0.04                # share of runs taken by the `band` family (own rng stream)
+
+
+def _gen_band(r, big):
+    """A header valid except for ONE rule - its proof of work measured against the target its bits encode: the
+    hash lies between decode(bits) and the un-rounded retarget value (pre-mined, lbrychain.BAND_HEADERS_HEX).
+    Offered as the extension of the tip or as a fork at a lower height, alone or followed by a valid child."""
+    cp = r.choice([0, 0, 1, 2])
+    sc = {'family': 'band', 'cp': cp, 'init': 'file', 'full_walk': False, 'server_delay': 0.0, 'ops': [],
+          'base_len': {0: r.choice([12, 13, 40, 500, 1050, 1050, 1051, 1100]), 1: r.choice([1050, 1050, 1051, 1100]),
+                       2: r.choice([2003, 2003, 2004, 2100])}[cp]}
+    ops = sc['ops']
+    if r.random() < 0.25:
+        ops.append(_batch(r, big, nmax=2))
+    ops.append({'op': 'band', 'child': r.random() < 0.4, 'seed': r.getrandbits(48), 'split': r.random() < 0.3})
+    k = r.choice(['none', 'feed', 'ext', 'reopen', 'reopen'])
+    if k == 'feed':
+        ops.append({'op': 'feed', 'n': r.choice([1, 3]), 'split': []})
+    elif k == 'ext':
+        ops.append(_batch(r, big, nmax=2))
+    elif k == 'reopen':
+        ops.append({'op': 'reopen', 'faults': []})
+        if r.random() < 0.5:
+            ops.append({'op': 'band', 'child': False, 'seed': r.getrandbits(48), 'split': False})
+    return sc
+
+
 def gen(run_seed, tier):
     big = tier != 'quick'
+    r6 = stream('C07.gen.band', run_seed)
+    if r6.random() < BAND_FRACTION:
+        return _gen_band(r6, big)
+    r4 = stream('C07.gen.belowcp', run_seed)       # own streams: everything older stays as it was
+    if r4.random() < BELOW_CP_FRACTION:
+        return _gen_below_cp(r4, big)
+    r5 = stream('C07.gen.tipdamage', run_seed)
+    if r5.random() < TIP_DAMAGE_FRACTION:
+        return _gen_tip_damage(r5, big)
+    r3 = stream('C07.gen.firstabove', run_seed)    # own stream again: everything else stays as it was
+    if r3.random() < FIRST_ABOVE_FRACTION:
+        return _gen_first_above(r3, big)
     r2 = stream('C07.gen.restart', run_seed)       # own stream: the scenarios of the other families stay as they were
     if r2.random() < RESTART_FAMILIES_FRACTION:
         return _gen_restart(r2, big)
@@ -596,7 +794,7 @@ class _Exec:
         self.h = None
         self.image = b''        # last observed io image
         self.logical = 0        # how far the stored bytes validate (>= end of the most recently connected batch)
-        self.getter_on = bool(sc.get('cp'))
+        self.getter_on = bool(sc.get('cp')) and bool(sc.get('getter', True))
         self.stop = False
         self.midfile = False     # the last writer left the file position below the end of the stored data
 
@@ -782,6 +980,10 @@ class _Exec:
         k, rule = 0, None
         if start > plen:
             rule = 'beyond'
+        elif self.cps and start < self.top:
+            # below max(checkpoints)+1000 headers are only accepted as whole chunks that hash to their checkpoint;
+            # a batch that connects there (however valid by the chain rules) is not a valid extension
+            rule = 'checkpointed'
         else:
             parent = eb[(start - 1) * HS:start * HS] if start >= 1 else None
             grand = eb[(start - 2) * HS:(start - 1) * HS] if start >= 2 else None
@@ -814,6 +1016,8 @@ class _Exec:
             mismatch = any(s in self.cps for s, _k, _d in rejected) and 'Checkpoint mismatch' in str(exc)
             if rule == 'beyond' and isinstance(exc, IndexError):
                 run.probes['beyond_tip_raised'] += 1
+            elif rule == 'checkpointed' and type(exc).__name__ in ('InvalidHeader', 'IndexError'):
+                run.probes['checkpointed_range_refused_raising'] += 1
             elif mismatch:
                 run.probes['connect_refused_bad_chunk'] += 1
             else:
@@ -827,6 +1031,18 @@ class _Exec:
             return self.viol('C07.checkpoint', f'chunk served as {bk} during connect was stored although its hash '
                              f'is not the configured checkpoint', serve=bk, what='stored_mismatching')
         # -- stored whole / nothing beyond the first invalid header ----------------------------------------
+        if rule == 'checkpointed':
+            c0 = (start // 1000) * 1000
+            state = 'placeholder' if eb[c0 * HS:(c0 + 1000) * HS] == bytes(1000 * HS) else 'downloaded'
+            run.probes['connect_inside_checkpointed_' + state] += 1
+            if after != eb:
+                d = lc.common_prefix_headers(after, eb)
+                return self.viol('C07.checkpoint', f'connect({start}, {n} headers, {label}) starts inside the check-'
+                                 f'pointed range (below {self.top}; chunk {c0} {state}) and returned {ret!r}: stored '
+                                 f'bytes changed from height {d} on, {len(eb) // HS} headers before the call, '
+                                 f'{len(after) // HS} after it - headers of a check-pointed chunk are only accepted '
+                                 f'as a whole chunk that hashes to the checkpoint', what='connected_inside_checkpointed_range',
+                                 shape=label, chunk=state, cut_above=len(after) < len(eb))
         if after[:start * HS] != eb[:start * HS]:
             d = lc.common_prefix_headers(after, eb)
             return self.viol('C07.valid_headers_dropped', f'connect({start}, {n} headers, {label}; first broken rule '
@@ -991,6 +1207,64 @@ class _Exec:
         self.run.probes['feed_through_connect'] += 1
         await self.do_connect(lg, batch, label)
 
+    async def op_deep(self, op):
+        """A batch that starts inside the check-pointed range (see _deep_op)."""
+        if not self.cps:
+            self.run.probes['op_skipped'] += 1
+            return
+        shape = op.get('shape', 'fork')
+        top = self.top
+        start = max(1, min(int(op.get('start', 1)), top - 1))
+        n = max(1, int(op.get('n', 1)))
+        ctx = self.filled(self.image)
+        if len(ctx) < top * HS:
+            self.run.probes['op_skipped'] += 1
+            return
+        deltas, seed = op.get('deltas') or [150], op.get('seed', 0)
+        if shape == 'genesis_fork':
+            start = 0
+            hdrs = [self.base[:HS]] + self.build_batch(ctx, 1, n, deltas, seed, None)[0]
+        elif shape == 'feed0':
+            start = 0
+            hdrs = [self.base[i * HS:(i + 1) * HS] for i in range(n)]
+        elif shape == 'resend':
+            n = min(n, lc.BASE_LEN - start)
+            hdrs = [self.base[(start + i) * HS:(start + i + 1) * HS] for i in range(n)]
+        elif shape == 'placeholder_bits':
+            # valid against what is STORED when the chunk below is an all-zero placeholder: parent = the real
+            # header k*1000, "grand-parent" = 112 zero bytes (time 0) -> the retarget asks for the easiest step
+            start = max(1001, min(start, top - 999)) if top > 1000 else 1
+            start = (start // 1000) * 1000 + 1
+            rr = random.Random(seed)
+            parent = ctx[(start - 1) * HS:start * HS]
+            pt, pb = lc.time_bits(parent)
+            bits = lc.next_bits(pb, pt, 0)
+            hdr, _ = lc.mine_valid(1, lc.sha256d(parent), rr.randbytes(32), rr.randbytes(32), lc.clamp_time(pt + 150),
+                                   bits, rr.getrandbits(32))
+            hdrs = [hdr]
+        else:
+            hdrs = self.build_batch(ctx, start, n, deltas, seed, None)[0]
+        self.run.faults['connect_below_checkpoint'] += 1
+        self.run.probes['deep_' + shape] += 1
+        await self.connect_pieces(start, hdrs, op.get('split'), 'below_cp:' + shape)
+
+    async def op_band(self, op):
+        """pre-mined header whose PoW hash lies between decode(bits) and the un-rounded retarget value"""
+        ctx = self.filled(self.image)
+        cands = [h for h in sorted(lc.band_headers(), reverse=True)
+                 if self.top <= h <= self.logical and ctx[:h * HS] == self.base[:h * HS]]
+        if not cands:
+            self.run.probes['op_skipped'] += 1
+            return
+        h = cands[0]
+        hdrs = [lc.band_headers()[h]]
+        if op.get('child'):
+            hdrs += self.build_batch(ctx[:(h - 1) * HS] + self.base[(h - 1) * HS:h * HS] + hdrs[0], h + 1, 1, [150],
+                                     op.get('seed', 0), None)[0]
+        self.run.faults['bad_pow_band'] += 1
+        self.run.probes['band_as_extension' if h == len(self.h) else 'band_as_fork'] += 1
+        await self.connect_pieces(h, hdrs, [1] if op.get('split') and len(hdrs) > 1 else [], 'pow:band')
+
     async def op_empty(self, op):
         plen = len(self.h)
         where = op.get('where', 'tip')
@@ -1074,6 +1348,7 @@ class _Exec:
         kinds = []
         flips = []
         cut_at = None
+        tip_partial = False
 
         def resolve(pos, allow_tip, anywhere=False):
             how, v = (pos or ['back', 1])[:2]
@@ -1089,6 +1364,10 @@ class _Exec:
                 p = rs + 1 + int(float(v) * max(0, tip - rs))
             # without checkpoints there is no check-pointed chunk: every height is "above the last one"
             floor = -1 if anywhere and not self.cps else rs
+            if anywhere and self.cps and R[(rs - 1) * HS:rs * HS] not in (b'', bytes(HS)):
+                # the first height above the check-pointed chunks is above the last check-pointed chunk; only
+                # while the header below it is a not yet downloaded placeholder nothing can link it
+                floor = rs - 1
             if floor < p <= tip and (allow_tip or p < tip) and (p + 1) * HS <= len(Fp):
                 if p < 999 and not self.cps:
                     run.probes['damage_below_999'] += 1
@@ -1118,6 +1397,49 @@ class _Exec:
                 D.append(p)
                 run.faults['bitflip'] += 1
                 kinds.append('bitflip_prev' if 32 <= bit < 288 else 'bitflip')
+            elif kind == 'tip_damage':
+                # any damage to the tip that is not a whole-header overwrite
+                p = resolve(['back', 0], True, True)
+                if p is None or p != len(Fp) // HS - 1:
+                    run.probes['fault_skipped'] += 1
+                    continue
+                old = bytes(Fp[p * HS:(p + 1) * HS])
+                b = bytearray(old)
+                how = ft.get('how', 'flip')
+                if how == 'flip':
+                    bit = int(ft.get('bit', 0)) % (HS * 8)
+                    b[bit // 8] ^= 1 << (bit % 8)
+                elif how == 'zero_tail':
+                    nb = max(1, min(int(ft.get('bytes', 4)), HS - 1))
+                    b[HS - nb:] = bytes(nb)
+                else:
+                    rr = random.Random(ft.get('seed', 0))
+                    f = ft.get('field')
+                    if f == 'bits_max':
+                        b[104:108] = lc.encode_compact(lc.MAX_TARGET).to_bytes(4, 'little')
+                    elif f == 'bits_parent' and p >= 1:
+                        b[104:108] = bytes(Fp[(p - 1) * HS + 104:(p - 1) * HS + 108])
+                    elif f == 'nonce_plus':
+                        b[108:112] = ((int.from_bytes(b[108:112], 'little') + 1) & 0xffffffff).to_bytes(4, 'little')
+                    elif f == 'time_plus':
+                        b[100:104] = ((int.from_bytes(b[100:104], 'little') + 1) & 0xffffffff).to_bytes(4, 'little')
+                    elif f == 'version_flip':
+                        b[0] ^= 1
+                    else:
+                        b[36 + rr.randrange(32)] ^= 1 << rr.randrange(8)
+                b = bytes(b)
+                par = bytes(Fp[(p - 1) * HS:p * HS]) if p >= 1 else None
+                gra = bytes(Fp[(p - 2) * HS:(p - 1) * HS]) if p >= 2 else None
+                if b == old or self.chain.check(p, b, par, gra) is None or bytes(HS) in (par, gra):
+                    # nothing changed, or the changed header still satisfies every rule: no validator can tell
+                    # (nor while a header right below the tip is the placeholder of a chunk not downloaded yet)
+                    run.probes['tip_damage_still_valid'] += 1
+                    continue
+                Fp[p * HS:(p + 1) * HS] = b
+                D.append(p)
+                tip_partial = True
+                run.faults['tip_' + how] += 1
+                kinds.append('tip_' + how)
             elif kind == 'garbage_tail':
                 p = resolve(ft.get('pos'), True, True)
                 if p is None or len(op.get('faults')) != 1:
@@ -1152,13 +1474,25 @@ class _Exec:
         if cut_at is not None:
             new_tip = cut_at // HS - 1
             for p, byte, mask in flips:
-                if p >= new_tip:
-                    # the cut would make a partially changed header the tip (outside the damage model:
-                    # no link check can see it) or removes it anyway: undo this flip
+                if p > new_tip:             # cut away anyway
                     Fp[byte] ^= mask
                     if p in D:
                         D.remove(p)
                     run.probes['fault_skipped'] += 1
+                elif p == new_tip:
+                    # the cut turns a partially changed header into the tip: any damage to the tip counts, unless
+                    # the changed header still satisfies every rule (then no validator can tell)
+                    cur = bytes(Fp[p * HS:(p + 1) * HS])
+                    par = bytes(Fp[(p - 1) * HS:p * HS]) if p >= 1 else None
+                    gra = bytes(Fp[(p - 2) * HS:(p - 1) * HS]) if p >= 2 else None
+                    if self.chain.check(p, cur, par, gra) is None or bytes(HS) in (par, gra):
+                        Fp[byte] ^= mask
+                        if p in D:
+                            D.remove(p)
+                        run.probes['tip_damage_still_valid'] += 1
+                    else:
+                        tip_partial = True
+                        run.probes['cut_made_flipped_header_the_tip'] += 1
             del Fp[cut_at:]
             run.faults['cut'] += 1
             kinds.append('cut')
@@ -1175,7 +1509,8 @@ class _Exec:
             with open(self.path, 'wb') as f:
                 f.write(Fp)
         run.ev('faults', [(k,) for k in kinds], cut_at, sorted(D), len(F), len(Fp))
-        return {'R': R, 'Fp': Fp, 'D': D, 'kinds': kinds or ['none'], 'stale_tail': stale_tail}
+        return {'R': R, 'Fp': Fp, 'D': D, 'kinds': kinds or ['none'], 'stale_tail': stale_tail,
+                'tip_partial': tip_partial}
 
     def after_open(self, ctx):
         """Restart clauses: loaded bytes are a prefix of what was stored, validate, and at most the
@@ -1211,7 +1546,13 @@ class _Exec:
         stale_tail = bool(ctx.get('stale_tail'))
         wrong = list(D) + ([Rh] if stale_tail else [])
         cls = {'stale_tail': stale_tail,
-               'below_999_no_checkpoints': bool(not self.cps and wrong and min(wrong) <= 999)}
+               'below_999_no_checkpoints': bool(not self.cps and wrong and min(wrong) <= 999),
+               'first_above_checkpoint': bool(self.cps and D and min(D) == self.rs),
+               'tip_partial_damage': bool(ctx.get('tip_partial'))}
+        if cls['first_above_checkpoint']:
+            run.probes['damage_first_above_checkpoint'] += 1
+            if Rh - 1 == self.rs:
+                run.probes['damaged_tip_is_first_above_checkpoint'] += 1
         if stale_tail:
             run.probes['stale_tail_in_file'] += 1
         if loaded != R[:L2 * HS] or L2 > Rh:
@@ -1231,11 +1572,7 @@ class _Exec:
                              **self._uop_site())
         fi_L = min(fi_R, L2)
         rule = self.chain.first_invalid(R, fi_L, fi_L + 1)[1] if fi_L < L2 else None
-        if fi_L < L2 and fi_L == Wc - 1 and rule in ('bits', 'pow') and fi_L not in D:
-            # left-over of an earlier damaged (not overwritten) header that a later cut turned into the
-            # tip: its parent-hash field is intact, so it is outside "tip = whole-header overwrite"
-            run.probes['residual_partial_tip'] += 1
-        elif fi_L < L2 and not (aligned and self.cps and fi_R <= self.rs):
+        if fi_L < L2 and not (aligned and self.cps and fi_R <= self.rs):
             return self.viol('C07.reopen_invalid', f'after {fault} the loaded chain has {L2} headers but the one at '
                              f'height {fi_L} breaks rule {rule} (damaged {sorted(D)}, file had {Wc} whole headers)',
                              fault=fault, tip_edge=edge, **cls)
@@ -1262,7 +1599,7 @@ class _Exec:
         self.after_open(ctx)
         handlers = {'batch': self.op_batch, 'beyond': self.op_beyond, 'resend': self.op_resend,
                     'feed': self.op_feed, 'fetch': self.op_fetch, 'stale_attach': self.op_stale_attach,
-                    'empty': self.op_empty}
+                    'empty': self.op_empty, 'deep': self.op_deep, 'band': self.op_band}
         for op in ops:
             if self.stop:
                 return
@@ -1283,6 +1620,9 @@ class _Exec:
         if sc.get('init', 'file') in ('file', 'sparse'):
             n = max(0, min(int(sc.get('base_len', N1)), lc.BASE_LEN))
             initial = self.base[:n * HS]
+            if sc.get('init') == 'sparse' and len(self.cps) == 1 and n >= 1000:
+                initial = bytes(1000 * HS) + initial[1000 * HS:]      # the only check-pointed chunk is a placeholder
+                self.run.probes['sparse_start'] += 1
             if sc.get('init') == 'sparse' and len(self.cps) == 2 and n >= 2000:
                 initial = bytes(1000 * HS) + initial[1000 * HS:]      # chunk 0 not downloaded yet
                 self.run.probes['sparse_start'] += 1
